@@ -38,6 +38,10 @@ type plan struct {
 	execSmall, execLarge   []config
 	otherSmall, otherLarge []config
 	apq                    []config
+	// odd carriers (non-POST method with body and Content-Type); above fullOps operations only the
+	// GET ones unless oddAllLarge
+	oddSmall, oddLarge []config
+	oddAllLarge        bool
 	// histories: configurations per history; whether documents above fullOps also get the
 	// cross-carrier and sibling shapes (they always get "the same request twice")
 	hist               []config
@@ -62,7 +66,8 @@ func makePlan(tier string) plan {
 	if tier == "thorough" {
 		// the complete product for every document and every carrier
 		return plan{maxOps: 3, fullOps: 3, execSmall: all, execLarge: all, otherSmall: all, otherLarge: all, apq: singles,
-			hist: product(acceptSingles[:4], []string{"nil", "ct-gr"}, orderAlphabet), histAllShapesLarge: true}
+			hist: product(acceptSingles[:4], []string{"nil", "ct-gr"}, orderAlphabet), histAllShapesLarge: true,
+			oddSmall: product(acceptSingles[:4], rhAlphabet, orderAlphabet), oddLarge: product(acceptSingles[:4], rhAlphabet, orderAlphabet), oddAllLarge: true}
 	}
 	// quick: for executing carriers on documents with up to 2 operations, in the default order every
 	// Accept value x {no ResponseHeaders, custom header} plus the single-value Accept headers x the two
@@ -78,7 +83,9 @@ func makePlan(tier string) plan {
 		otherSmall: singles,
 		otherLarge: product([]string{"", mtGR}, []string{"nil", "custom"}, []string{"default"}),
 		apq:        product(acceptSingles[:4], []string{"nil", "ct-gr"}, []string{"default"}),
-		hist:       product([]string{"", mtGR}, []string{"nil"}, []string{"default"})}
+		hist:       product([]string{"", mtGR}, []string{"nil"}, []string{"default"}),
+		oddSmall:   product([]string{"", mtGR}, []string{"nil"}, orderAlphabet),
+		oddLarge:   product([]string{""}, []string{"nil"}, orderAlphabet)}
 }
 
 type hit struct {
@@ -181,6 +188,13 @@ func casesFor(d DocSpec, p plan, f func(Case)) {
 			}
 			var cs []config
 			switch {
+			case car.Odd && !large:
+				cs = p.oddSmall
+			case car.Odd:
+				if car.Method != "GET" && !p.oddAllLarge {
+					continue
+				}
+				cs = p.oddLarge
 			case car.APQ:
 				cs = p.apq
 			case car.Executes && !large:
@@ -365,7 +379,7 @@ func main() {
 		"plus histories (one earlier request, then the case's request) on a fresh server with NewDefaultServer's query cache and APQ; every request goes through handler.Server.ServeHTTP and " +
 		"every response of a history is judged (responses_judged). A case counts once, by its last request. Non-trivial = the reference expects an execution (non-empty resolver log and data compared, status 200), " +
 		"a GET refusal of a selected mutation/subscription (empty resolver log, 4xx), or a parse/validation refusal (empty resolver log, media-type specific status); " +
-		"trivial = requests naming no operation, broken query strings, unregistered APQ hashes and HEAD/OPTIONS/PUT, where only 'no resolver ran', body shape and Content-Type are compared"
+		"trivial = requests naming no operation, broken query strings, non-POST requests whose document is only in the body, unregistered APQ hashes and HEAD/OPTIONS/PUT, where only 'no resolver ran', body shape and Content-Type are compared"
 	c.Cov["exhaustive"] = exhaustive
 	c.Cov["documents"] = len(docs)
 	c.Cov["documents_completed"] = int(done)
@@ -391,15 +405,21 @@ func main() {
 			fmt.Sprintf("non-executing carriers, documents with >%d operations", p.fullOps):  len(p.otherLarge),
 			"APQ carriers": len(p.apq),
 			"histories":    len(p.hist),
+			fmt.Sprintf("odd carriers, documents with <=%d operations", p.fullOps): len(p.oddSmall),
+			fmt.Sprintf("odd carriers, documents with >%d operations", p.fullOps):  len(p.oddLarge),
 		},
-		"history_shapes":   []string{"twice", "other-carrier-first", "valid-then-invalid-sibling", "invalid-sibling-then-valid"},
-		"history_carriers": histCarriers,
+		"history_shapes":                                  []string{"twice", "other-carrier-first", "valid-then-invalid-sibling", "invalid-sibling-then-valid"},
+		"history_carriers":                                histCarriers,
+		"odd_carriers":                                    "GET+body, GET+decoy, HEAD+body, PUT+body, DELETE+body, PATCH+body, each x request media types",
+		"request_media_types_of_odd_carriers":             reqMediaTypes,
+		"odd_carriers_for_documents_above_full_product":   map[bool]string{true: "all", false: "GET+body and GET+decoy only"}[p.oddAllLarge],
 		"history_shapes_for_documents_above_full_product": map[bool]string{true: "all", false: "twice only"}[p.histAllShapesLarge],
 	}
 	c.Assume = []string{
 		"handler.Server is driven through ServeHTTP with httptest recorders; no sockets, no net/http server (so net/http's own Content-Type sniffing and HEAD body stripping are not in the loop)",
 		"media type rules the statement leaves open are taken from gqlgen's documented conventions: absent Accept -> application/json; first usable Accept range wins; */* and application/* -> application/graphql-response+json; nothing usable -> application/graphql-response+json; urlencoded, application/graphql and multipart transports answer application/json unless a Content-Type is configured; parse/validation failure is 422 for application/json and 400 for application/graphql-response+json",
 		"q-weights and parameters inside Accept are outside the alphabet; the status of requests that name no (existing) operation, of broken query strings and of unsupported methods is not asserted",
+		"over GET (and HEAD/PUT/DELETE/PATCH) a request body names nothing, whatever Content-Type announces it: the GraphQL parameters of a GET are those of its URL (GraphQL over HTTP); so a GET with a body and an empty query string must run no resolver, and a GET with URL parameters is judged on those alone",
 		"subscriptions are scripted to emit one event, so a subscription executed over POST yields one data payload",
 		"gqlparser's parser and validator decide parse/validation failures inside gqlgen; the reference classifies documents by construction (injected fault, lone-anonymous rule)",
 	}
